@@ -23,6 +23,7 @@ RULES = [
     Rule('C16.R5', 'erase / free_slot / clear recycle slots completely', 5),
     Rule('C16.R7', 'the instrument converters behind opn2_setInstrument / opn2_getInstrument copy every field on every path', 2),
     Rule('C16.R8', 'LoadBank copies every bank the parsed file holds: its bank loops run to the parsed counts', 1),
+    Rule('C16.R9', 'bank keys built from file bytes stay inside the (percussive, MSB, LSB) key space: the MSB is masked to 7 bits, the melodic LSB too', 2),
     Rule('C16.R6', 'bucket links are updated in both directions on every path; reserve adds every new slot', 4),
 ]
 EXPLANATION = ('IR call-graph reachability (no allocation below the non-expanding insert) plus CFG order / post-dominance and AST shape rules over the '
@@ -446,6 +447,7 @@ def analyse(facts, tier):
                     why=form if (okr and cap) else 'cannot establish that all `need` new slots are handed to the free list while the capacity grows by `need` (%s)' % form))
     obls += r7_converters_total(facts)
     obls += r8_load_all(facts)
+    obls += r9_file_keys(facts)
     return obls
 
 
@@ -529,4 +531,62 @@ def r8_load_all(facts):
                        'the loop over the banks of the file is bounded by %s, not by the parsed count: banks beyond that bound are dropped although the load reports success' % show(c['r'])[:50]))
     if n < 1:
         raise build.AnalysisBroken('C16.R8: bank loops of LoadBank not found')
+    return out
+
+
+def r9_file_keys(facts):
+    """the key of a bank is msb * 256 + lsb + (percussive ? 0x8000 : 0); opn2_getBankId decodes it with & 127 and opn2_getBank accepts
+    0..127 only.  The bytes of a bank file are 8-bit: an MSB >= 128 would set the percussion tag of a melodic bank (and overwrite the
+    percussive bank of that number), a melodic LSB >= 128 gives a key no identifier names.  In LoadBank the MSB factor of `* 256` is
+    masked with 0x7F, and the LSB term is masked unless the set is the percussive one (XG SFX kits use 128..255)."""
+    out = []
+    fns = [f for f in facts.fns.get('OPNMIDIplay::LoadBank', []) if f.tree is not None and any(short(callee_name(x)) == 'cvt_generic_to_FMIns' for b, j, st in f.cfg.stmts() for x in calls_in(st['s']))]
+    if not fns:
+        raise build.AnalysisBroken('C16.R9: LoadBank not found')
+    fn = fns[0]
+    inits = {}
+    for b, j, st in fn.cfg.stmts():
+        if st['s'].get('k') == 'DeclStmt':
+            for v in st['s']['decls']:
+                if v.get('init') is not None:
+                    inits[v['id']] = v['init']
+    def resolve(e, depth=0):
+        e = strip(e)
+        if depth < 3 and e is not None and e.get('k') == 'DeclRefExpr' and not e.get('parm') and e.get('id') in inits:
+            return resolve(inits[e['id']], depth + 1)
+        return e
+    def masked7(e):
+        e = resolve(e)
+        return e is not None and e.get('k') == 'BinaryOperator' and e.get('op') == '&' and 0x7F in (const_of(e.get('l')), const_of(e.get('r')))
+    n = 0
+    for b, j, st in fn.cfg.stmts():
+        for x in walk(st['s']):
+            if isinstance(x, dict) and x.get('k') == 'BinaryOperator' and x.get('op') == '*' and 256 in (const_of(x.get('l')), const_of(x.get('r'))):
+                fac = x['l'] if const_of(x.get('r')) == 256 else x['r']
+                if not any(isinstance(y, dict) and y.get('k') == 'MemberExpr' and 'bank_midi' in short(y.get('n', '')) for y in walk(resolve(fac)) ):
+                    continue
+                n += 1
+                ok = masked7(fac)
+                out.append(Obl('C16.R9', fn.name, 'MSB factor of the bank key', st['loc'], 'discharged' if ok else 'finding',
+                               why='masked with 0x7F' if ok else
+                               'the MSB byte of the file enters the key unmasked: a melodic bank with MSB >= 128 gets the percussion tag (bit 15) and replaces the percussive bank of the same number'))
+    # the LSB term
+    for b, j, st in fn.cfg.stmts():
+        if st['s'].get('k') != 'DeclStmt':
+            continue
+        for v in st['s']['decls']:
+            i_ = strip(v.get('init')) if v.get('init') is not None else None
+            if i_ is None or not any(isinstance(y, dict) and y.get('k') == 'MemberExpr' and short(y.get('n', '')) == 'bank_midi_lsb' for y in walk(i_)):
+                continue
+            if any(isinstance(y, dict) and y.get('k') == 'BinaryOperator' and y.get('op') == '*' for y in walk(i_)):
+                # the key expression itself: LSB used raw inside it
+                raw = True
+            else:
+                raw = not (masked7(i_) or (i_.get('k') == 'ConditionalOperator' and (masked7(i_.get('l')) or masked7(i_.get('r')))))
+            n += 1
+            out.append(Obl('C16.R9', fn.name, 'LSB term of the bank key', st['loc'], 'finding' if raw else 'discharged',
+                           why='masked with 0x7F for the melodic set' if not raw else
+                           'the LSB byte of a melodic bank enters the key unmasked: a value >= 128 gives a key that no bank identifier names (iteration shows it as the bank with LSB & 127, lookup cannot find it)'))
+    if n < 2:
+        raise build.AnalysisBroken('C16.R9: key computation of LoadBank not found (%d)' % n)
     return out
